@@ -3,6 +3,8 @@ package mon
 import (
 	"fmt"
 	"strings"
+	"sync"
+	"sync/atomic"
 
 	stackage "github.com/JesseCoretta/go-stackage"
 	"verifharness/core"
@@ -268,9 +270,106 @@ func init() {
 	}
 }
 
+// c20Concurrent: "neither panics nor deadlocks on stacks with the mutex enabled" — with the mutex on, every call is one
+// atomic step, so a Reveal that runs while another goroutine pushes an envelope and pops it again (or removes, or resets)
+// sees the stack either with or without it: it never panics, and whatever the other goroutine gets back holds exactly
+// the leaf it put in. The fixed part of the stack (a leaf, a parenthetical wrapper, a NOT) survives in order.
+func c20Concurrent(c *core.Ctx) {
+	r := c.Rng
+	stackage.VerifSetHook(nil) // several goroutines: the single-goroutine lock watcher does not apply here
+	root := stackage.And().SetMutex()
+	keepParen := stackage.Or().SetParen(true).Push(stackage.And().Push("inside-paren"))
+	keepNot := stackage.Not().Push(stackage.Or().Push("inside-not"))
+	root.Push("fixed-leaf", keepParen, keepNot)
+	rounds := 3000
+	if c.Tier == "thorough" {
+		rounds = 20000
+	}
+	mode := r.Intn(3)
+	var bad atomic.Value
+	var wg sync.WaitGroup
+	done := make(chan struct{})
+	wg.Add(2)
+	go func() {
+		defer wg.Done()
+		defer close(done)
+		defer func() {
+			if p := recover(); p != nil {
+				bad.Store(fmt.Sprintf("the mutating goroutine panicked: %v", p))
+			}
+		}()
+		for i := 0; i < rounds; i++ {
+			leaf := fmt.Sprintf("leaf-%d", i)
+			env := stackage.Or().Push(stackage.And().Push(leaf))
+			root.Push(env)
+			var got any
+			var ok bool
+			switch mode {
+			case 0:
+				got, ok = root.Pop()
+			case 1:
+				got, ok = root.Remove(root.Len() - 1)
+			default:
+				got, ok = root.Pop()
+				if i%64 == 63 {
+					root.Reset()
+					root.Push("fixed-leaf", keepParen, keepNot)
+				}
+			}
+			if !ok {
+				bad.Store(fmt.Sprintf("round %d: the envelope just pushed could not be taken back", i))
+				return
+			}
+			var seq []string
+			describeLive(got, 0).leafSeq(&seq)
+			if len(seq) != 1 || seq[0] != "L:"+Show(leaf) {
+				bad.Store(fmt.Sprintf("round %d: pushed an envelope around %q, took back %s (leaves %v)", i, leaf, Show(got), seq))
+				return
+			}
+		}
+	}()
+	reveals := 0
+	go func() {
+		defer wg.Done()
+		defer func() {
+			if p := recover(); p != nil {
+				bad.Store(fmt.Sprintf("Reveal panicked while another goroutine used the same mutex-enabled stack: %v", p))
+			}
+		}()
+		for {
+			select {
+			case <-done:
+				return
+			default:
+			}
+			root.Reveal()
+			reveals++
+		}
+	}()
+	wg.Wait()
+	desc := map[string]any{"mode": []string{"push+pop", "push+remove", "push+pop+reset"}[mode], "rounds": rounds}
+	if b, _ := bad.Load().(string); b != "" {
+		c.Violatef("concurrent", desc, "%s", b)
+		return
+	}
+	var seq []string
+	describeLive(root, 0).leafSeq(&seq)
+	if strings.Join(seq, "|") != "L:"+Show("fixed-leaf")+"|L:"+Show("inside-paren")+"|L:"+Show("inside-not") {
+		c.Violatef("concurrent:content", desc, "after the run the fixed part of the stack reads %v", seq)
+		return
+	}
+	c.Add("concurrent.reveals", int64(reveals))
+	c.Add("concurrent.rounds", int64(rounds))
+	c.Count("concurrent-cases")
+}
+
 func c20Run(c *core.Ctx, idx int) {
 	_, exh, _ := c20Tier(c.Tier)
 	r := c.Rng
+	if idx >= exh && idx%2003 == 1001 {
+		c20Concurrent(c)
+		return
+	}
 	var tree *TNode
 	if idx < exh {
 		tree = c20Chain(idx, r)
@@ -506,7 +605,7 @@ func init() {
 			"the lock-point hook reports a lock.want on a mutex the goroutine already holds (certain deadlock) and leaked locks. non-trivial = Reveal changed the structure AND the tree contains a single-child wrapper that must not be removed; distinct = tree description.",
 		Assumptions: []string{"trees, not DAGs: no Stack instance occurs twice in one structure", "Reveal may remove any subset of the removable wrappers (the statement fixes which removals are legal, not how many are performed)"},
 		Floors: func(string) map[string]int64 {
-			return map[string]int64{"reveal-changed-structure": 5000, "changed-and-has-protected-wrapper": 1000, "lock-events": 5000}
+			return map[string]int64{"reveal-changed-structure": 5000, "changed-and-has-protected-wrapper": 1000, "lock-events": 5000, "concurrent-cases": 20, "concurrent.reveals": 1000}
 		},
 	})
 }
